@@ -25,6 +25,7 @@ pub fn q_marker(m: u64) -> String {
 }
 pub const Q_PREPARED_SELECT: &str = "SELECT v FROM ks1.t1 WHERE pk = ? AND m = ?";
 pub const Q_PREPARED_INSERT: &str = "INSERT INTO ks1.t1 (pk, m) VALUES (?, ?)";
+pub const Q_PREPARED_UPDATE: &str = "UPDATE ks1.t1 SET v = 1 WHERE pk = ? AND m = ?";
 pub fn q_write_marker(m: u64) -> String {
     format!("UPDATE {KS}.{TABLE} SET v = 1 WHERE m = {m}")
 }
@@ -82,6 +83,21 @@ pub fn standard_catalog(c: &mut Cluster, strategy: Strategy, tablets: bool) {
         ],
         pk_indexes: vec![0],
         result_cols: vec![v],
+        marker_bind: Some(1),
+        schema_version: 0,
+        id_version: 0,
+    });
+    c.catalog.push(StmtDef {
+        shape: Q_PREPARED_UPDATE.into(),
+        ks: KS.into(),
+        table: TABLE.into(),
+        kind: StmtKind::Write,
+        bind_cols: vec![
+            col(KS, TABLE, "pk", CType::BigInt),
+            col(KS, TABLE, "m", CType::BigInt),
+        ],
+        pk_indexes: vec![0],
+        result_cols: vec![],
         marker_bind: Some(1),
         schema_version: 0,
         id_version: 0,
